@@ -569,12 +569,9 @@ func normalizeValue(
 		return normalizeMapValue(opts, ctx, v)
 	case reflect.Struct:
 		if v, ok := tryTConfig(v); ok {
+			// copy: the Config embedded in the source value stays as it is
 			c := v.Addr().Interface().(*Config)
-			ret := cfgSub{c}
-			if ret.Context().parent != ctx.parent {
-				ret.SetContext(ctx)
-			}
-			return ret, nil
+			return cfgSub{c}.cpy(ctx), nil
 		}
 
 		return normalizeStructValue(opts, ctx, v)
